@@ -150,6 +150,12 @@ impl<'a> Out<'a> {
     }
 }
 
+/// state bound of the thorough explorations; an escalated quick run (second pass of ./check) keeps it moderate so
+/// that a change which multiplies the state space cannot turn the search into hours
+fn deep_states(n: usize) -> usize {
+    if std::env::var("VERIF_ESCALATED").is_ok() { n.min(20_000) } else { n }
+}
+
 fn main() {
     obs::install_panic_hook();
     let args: Vec<String> = std::env::args().collect();
@@ -350,8 +356,8 @@ fn main() {
             out.stat("evaluations", n); out.stat("nontrivial", n);
         }
         // scanners: product exploration to a fixpoint and seeded random histories
-        "cc-explore" => { let chans: Vec<u32> = args[2..].iter().filter_map(|s| s.parse().ok()).collect(); scan::explore(&mut out, "cc", &chans, if tier == "thorough" { 200_000 } else { 3_000 }, strict); }
-        "pn-explore" => { let chans: Vec<u32> = args[2..].iter().filter_map(|s| s.parse().ok()).collect(); scan::explore(&mut out, "pn", &chans, if tier == "thorough" { 200_000 } else { 3_000 }, strict); }
+        "cc-explore" => { let chans: Vec<u32> = args[2..].iter().filter_map(|s| s.parse().ok()).collect(); scan::explore(&mut out, "cc", &chans, if tier == "thorough" { deep_states(200_000) } else { 3_000 }, strict); }
+        "pn-explore" => { let chans: Vec<u32> = args[2..].iter().filter_map(|s| s.parse().ok()).collect(); scan::explore(&mut out, "pn", &chans, if tier == "thorough" { deep_states(200_000) } else { 3_000 }, strict); }
         "cc-random" => { let (h, l) = if tier == "thorough" { (40_000, 80) } else { (5_000, 60) }; scan::random_histories(&mut out, "cc", seed, h, l, strict); }
         "pn-random" => { let (h, l) = if tier == "thorough" { (40_000, 80) } else { (5_000, 60) }; scan::random_histories(&mut out, "pn", seed, h, l, strict); }
         #[cfg(feature = "std")]
@@ -359,7 +365,7 @@ fn main() {
             let timeout: u64 = args[2].parse().unwrap();
             let chans: Vec<u32> = args[3..].iter().filter_map(|s| s.parse().ok()).collect();
             let full = args.iter().any(|a| a == "--full-transparency");
-            poll::explore(&mut out, &chans, timeout, if tier == "thorough" { 100_000 } else { 5_000 }, strict, full);
+            poll::explore(&mut out, &chans, timeout, if tier == "thorough" { deep_states(100_000) } else { 5_000 }, strict, full);
         }
         #[cfg(feature = "std")]
         "pp-random" => { let (h, l) = if tier == "thorough" { (60_000, 80) } else { (6_000, 60) }; poll::random_histories(&mut out, seed, h, l, strict); }
